@@ -157,6 +157,8 @@ def parse_output(out):
                 r["time"] = float(m.group(1))
             if "CBMC timed out" in ln or "timed out" in ln.lower():
                 r["status"] = "timeout"
+            if "run out of memory" in ln:
+                r["status"] = "oom"
         i += 1
     for r in res.values():
         r["raw"] = "\n".join(r["raw"][-60:])
